@@ -138,7 +138,13 @@ func (w *c09World) mkIn(room, typ, sender string, sk *string, content interface{
 
 // mkAuth: as mkIn, with the auth_events the event cites
 func (w *c09World) mkAuth(room, typ, sender string, sk *string, content interface{}, prev, auth []string) int {
-	id := w.newID()
+	return w.mkID(w.newID(), room, typ, sender, sk, content, prev, auth)
+}
+
+// mkID: an event under a given event ID (IDs are sender-chosen in room versions 1 and 2, and
+// supplied by the caller for trusted JSON in every version): two different events can share one.
+func (w *c09World) mkID(id, room, typ, sender string, sk *string, content interface{}, prev, auth []string) int {
+	w.n++
 	m := map[string]interface{}{
 		"event_id": id, "type": typ, "sender": sender, "content": content,
 		"prev_events": w.refs(prev), "auth_events": w.refs(auth), "depth": w.n, "origin_server_ts": 1000 + w.n,
@@ -282,6 +288,25 @@ func newC09Room(ver gmsl.RoomVersion) *c09Room {
 		r.jrs[rule] = w.mk(spec.MRoomJoinRules, uAlice, c09sp(""), c, nil)
 	}
 	r.jrBad = w.mk(spec.MRoomJoinRules, uAlice, c09sp(""), map[string]interface{}{"join_rule": 5}, nil)
+	// different events under the event ID of another one, and the same event under another ID
+	for _, rule := range c09Rules {
+		other := map[string]string{"public": "invite", "invite": "public", "knock": "public", "restricted": "public", "knock_restricted": "invite", "private": "public"}[rule]
+		r.jrs["sameid:"+rule] = w.mkID(w.pool[r.jrs[rule]].id, w.roomID, spec.MRoomJoinRules, uAlice, c09sp(""), map[string]interface{}{"join_rule": other}, nil, nil)
+		var cc map[string]interface{}
+		_ = json.Unmarshal(w.pool[r.jrs[rule]].pdu.Content(), &cc)
+		r.jrs["copy:"+rule] = w.mk(spec.MRoomJoinRules, uAlice, c09sp(""), cc, nil)
+	}
+	// creates[5]: the ID of creates[0], other content (not federatable, created by bob); creates[6]: creates[0] under another ID
+	r.creates = append(r.creates, w.mkID(w.pool[c0].id, w.roomID, spec.MRoomCreate, uBob, c09sp(""), map[string]interface{}{"creator": uBob, "room_version": string(ver), "m.federate": false}, nil, nil))
+	r.creates = append(r.creates, w.mk(spec.MRoomCreate, uAlice, c09sp(""), cc, nil))
+	// pls[7]: the ID of pls[0] with the levels of pls[1] (bob 0, heidi 50, state_default 0); pls[8]: the ID of pls[1] with
+	// the levels of pls[0]; pls[9]: pls[0] under another ID
+	var pc0, pc1 map[string]interface{}
+	_ = json.Unmarshal(w.pool[r.pls[0]].pdu.Content(), &pc0)
+	_ = json.Unmarshal(w.pool[r.pls[1]].pdu.Content(), &pc1)
+	r.pls = append(r.pls, w.mkID(w.pool[r.pls[0]].id, w.roomID, spec.MRoomPowerLevels, uAlice, c09sp(""), pc1, nil, nil))
+	r.pls = append(r.pls, w.mkID(w.pool[r.pls[1]].id, w.roomID, spec.MRoomPowerLevels, uAlice, c09sp(""), pc0, nil, nil))
+	r.pls = append(r.pls, w.mk(spec.MRoomPowerLevels, uAlice, c09sp(""), pc0, nil))
 
 	mem := func(target, sender, membership string, prev []string) int {
 		return w.mk(spec.MRoomMember, sender, c09sp(target), map[string]interface{}{"membership": membership}, prev)
@@ -513,19 +538,21 @@ func (r *c09Room) randomChoice(c *Ctx, prev *c09Choice) c09Choice {
 	rng := c.Rng
 	sticky := func() bool { return prev != nil && rng.Intn(10) < 6 }
 	if !sticky() {
-		switch k := rng.Intn(12); {
+		switch k := rng.Intn(13); {
 		case k < 6:
 			ch.create = 0
 		case k < 7:
 			ch.create = 4 // same event, new object
 		case k < 9:
 			ch.create = -1
-		default:
+		case k < 11:
 			ch.create = 1 + rng.Intn(3)
+		default:
+			ch.create = 5 + rng.Intn(2) // same ID other event / same event other ID
 		}
 	}
 	if !sticky() {
-		switch k := rng.Intn(14); {
+		switch k := rng.Intn(16); {
 		case k < 5:
 			ch.pl = 0
 		case k < 6:
@@ -536,12 +563,14 @@ func (r *c09Room) randomChoice(c *Ctx, prev *c09Choice) c09Choice {
 			ch.pl = 1
 		case k < 11:
 			ch.pl = 2
-		default:
+		case k < 14:
 			ch.pl = 4 + rng.Intn(3) // with notification levels
+		default:
+			ch.pl = 7 + rng.Intn(3) // same ID other levels / same levels other ID
 		}
 	}
 	if !sticky() {
-		switch k := rng.Intn(14); {
+		switch k := rng.Intn(16); {
 		case k < 4:
 			ch.rule = "restricted"
 		case k < 6:
@@ -550,8 +579,10 @@ func (r *c09Room) randomChoice(c *Ctx, prev *c09Choice) c09Choice {
 			ch.rule = ""
 		case k < 8:
 			ch.rule = "bad"
-		default:
+		case k < 14:
 			ch.rule = c09Rules[rng.Intn(len(c09Rules))]
+		default:
+			ch.rule = []string{"sameid:", "copy:"}[rng.Intn(2)] + c09Rules[rng.Intn(len(c09Rules))]
 		}
 	}
 	ch.full = rng.Intn(4) == 0
@@ -736,6 +767,36 @@ func init() {
 		}
 		return args, B(strings.Join(out, ","))
 	})
+	// [ver; steps JSON; signature tables (model side only); pool event JSON ...] -> "verdicts of Allowed
+	// on ONE provider object cleared and refilled per step|verdicts on a new provider per step"
+	RegisterImpl("C09.refill", func(args [][]byte) ([][]byte, []byte) {
+		ver := gmsl.RoomVersion(args[0])
+		var steps []c09Step
+		if err := json.Unmarshal(args[1], &steps); err != nil || len(steps) == 0 {
+			return args, B("badsteps")
+		}
+		pool, err := c09PoolFromArgs(ver, args[3:])
+		if err != nil {
+			return args, B("badpool")
+		}
+		shared, _ := gmsl.NewAuthEvents(nil)
+		a, b := make([]string, len(steps)), make([]string, len(steps))
+		for i, st := range steps {
+			evs := c09Pick(pool, st.Set)
+			ev := pool[st.Ev]
+			a[i] = c09Safe(func() error {
+				shared.Clear()
+				for _, e := range evs {
+					if err := shared.AddEvent(e); err != nil {
+						return err
+					}
+				}
+				return gmsl.Allowed(ev, shared, c09Querier)
+			})
+			b[i] = c09OneShot(ev, evs)
+		}
+		return args, B(strings.Join(a, ",") + "|" + strings.Join(b, ","))
+	})
 	// [ver; event; orders JSON; signature table of the event (model side only); inserted event ...]
 	// -> the Allowed verdict for every insertion order of the same events into NewAuthEvents
 	RegisterImpl("C09.order", func(args [][]byte) ([][]byte, []byte) {
@@ -842,8 +903,74 @@ func genC09(c *Ctx) {
 	genC09Invariance(c, vers, rooms)
 	genC09Sequences(c, vers, rooms)
 	genC09Repeat(c, vers, rooms)
+	genC09SameID(c, vers, rooms)
+	genC09Refill(c, vers, rooms)
 	genC09Order(c, vers, rooms)
 	genC09Loop(c, vers, rooms)
+}
+
+// genC09SameID: histories over ONE reused context in which successive auth-event sets hold
+// DIFFERENT create / power_levels / join_rules events under the SAME event ID (and the same event
+// under different IDs); every step against a new context (the one-shot side knows no cache).
+func genC09SameID(c *Ctx, vers []gmsl.RoomVersion, rooms map[gmsl.RoomVersion]*c09Room) {
+	names := []string{"topic-heidi", "topic-bob", "msg-heidi", "msg-bob", "invite-grace-by-bob", "invite-grace-by-heidi", "kick-heidi-by-bob",
+		"join-grace-plain", "join-dave-plain", "knock-grace", "join-dave-via-alice", "pl-by-bob", "pl-by-alice", "jr-by-heidi", "aliases-bob", "redaction-heidi", "join-alice-first"}
+	type alt struct {
+		what string
+		a, b c09Choice
+	}
+	var alts []alt
+	for _, p := range [][2]int{{0, 7}, {1, 8}, {0, 9}, {7, 8}} {
+		alts = append(alts, alt{fmt.Sprintf("power levels #%d/#%d", p[0], p[1]), c09Choice{pl: p[0], rule: "public"}, c09Choice{pl: p[1], rule: "public"}})
+	}
+	for _, rule := range c09Rules {
+		alts = append(alts, alt{"join rules " + rule + "/sameid", c09Choice{rule: rule}, c09Choice{rule: "sameid:" + rule}})
+		alts = append(alts, alt{"join rules " + rule + "/copy", c09Choice{rule: rule}, c09Choice{rule: "copy:" + rule}})
+	}
+	alts = append(alts, alt{"create #0/#5", c09Choice{rule: "public"}, c09Choice{create: 5, rule: "public"}})
+	alts = append(alts, alt{"create #0/#6", c09Choice{rule: "public"}, c09Choice{create: 6, rule: "public"}})
+	for _, v := range vers {
+		r := rooms[v]
+		for _, al := range alts {
+			for _, name := range names {
+				if !c.Thorough() && c.Rng.Intn(3) > 0 {
+					continue
+				}
+				ev := r.cand(name)
+				for _, order := range [][2]c09Choice{{al.a, al.b}, {al.b, al.a}} {
+					steps := []c09Step{
+						{P: "same", Set: r.provider(c, ev, order[0]), Ev: ev},
+						{P: "same", Set: r.provider(c, ev, order[1]), Ev: ev},
+						{P: "same", Set: r.provider(c, ev, order[0]), Ev: ev},
+					}
+					r.emitSequence(c, steps, fmt.Sprintf("same event ID, v%s: %s, %s", v, name, al.what))
+					c.Count("sequence/same-id")
+				}
+			}
+		}
+	}
+}
+
+// genC09Refill: ONE provider object, cleared (AuthEvents.Clear) and refilled for every step - with
+// events of one room, then of another - and handed to plain Allowed, against a new provider per step.
+func genC09Refill(c *Ctx, vers []gmsl.RoomVersion, rooms map[gmsl.RoomVersion]*c09Room) {
+	for _, v := range vers {
+		r := rooms[v]
+		n := c.Scale(8, 80)
+		for i := 0; i < n; i++ {
+			var steps []c09Step
+			for j := 0; j < 2+c.Rng.Intn(4); j++ {
+				if (i+j)%2 == 0 {
+					cd := r.cands[c.Rng.Intn(len(r.cands))]
+					steps = append(steps, c09Step{P: "same", Set: r.provider(c, cd.ev, c09Choice{rule: "public"}), Ev: cd.ev})
+				} else {
+					steps = append(steps, r.step2(r.room2.cands[c.Rng.Intn(len(r.room2.cands))], c.Rng.Intn(len(r.room2.pls)), false))
+				}
+			}
+			r.emitSteps(c, "C09.refill", "C09.refill", "C09.prop.halves_equal", steps, fmt.Sprintf("refill v%s, %d steps, rooms alternate", v, len(steps)))
+			c.Count("refill")
+		}
+	}
 }
 
 func c09Perms(n int) [][]int {
